@@ -276,6 +276,14 @@ pub fn gen_c06(out: &mut dyn Write, thorough: bool, seed: u64) {
                 }
             }
             writeln!(out, "H {CFG} {mt}^1{store} {ops},fill,obs:BKGIC,tspec:0 c06").unwrap();
+            // tags filled, boundaries moved (what a filter does), tags filled again: the second fill must see the new tokens
+            if n > 1 && r.chance(1, 3) {
+                let mut ops2 = format!("Fraw:{},pred:0,fill", hexs(&text));
+                for _ in 0..r.range(1, 3) {
+                    ops2.push_str(&format!(",setb:{}:{}", r.below(n - 1), r.pick(&['N', 'W', 'W', 'U'])));
+                }
+                writeln!(out, "H {CFG} {mt}^1{store} {ops2},fill,obs:BKGIC,tspec:0 c06").unwrap();
+            }
         }
         // one category with very many candidates (more than any one-byte index can address), the best one late
         if r.chance(1, 50) && !m.tag_models.is_empty() {
@@ -351,6 +359,13 @@ pub fn gen_c08(out: &mut dyn Write, thorough: bool, seed: u64) {
             continue;
         }
         let preds: Vec<vaporetto::Predictor> = built.into_iter().map(|b| b.unwrap()).collect();
+        // targeted: an update with the SAME text as before (any "nothing changed" shortcut must still reset everything)
+        for k in [0usize, 1, 4] {
+            let x = gen_text_tags(&mut r, &m1, &alpha, 10);
+            let fill = if can_fill[k] { ",fill" } else { "" };
+            writeln!(out, "H {CFG} {} raw:{h},pred:{k}{fill},raw:{h},obs c08", specs.join("!"), h = hexs(&x)).unwrap();
+            writeln!(out, "H {CFG} {} raw:{h},pred:{k}{fill},raw:{h},fill,obs c08", specs.join("!"), h = hexs(&x)).unwrap();
+        }
         // targeted: the same text predicted by two different tag-predicting models in a row, tags filled by the second
         for (a, b) in [(0, 4), (4, 0), (2, 4), (4, 3)] {
             let x = gen_text_tags(&mut r, &m1, &alpha, 12);
